@@ -1,7 +1,7 @@
 (* C17 — Emitted bytecode is well formed and the VM cannot be crashed.
    Property theorems only; proofs are [exact <lemma>]. *)
 From Coq Require Import ZArith NArith List String.
-From EvyV Require Import Base SymTab SymTabProofs Bytecode BytecodeProofs Vm VmProofs Compile CompileSem CompileWfProofs CompileSymProofs CompileCtlProofs.
+From EvyV Require Import Base SymTab SymTabProofs Bytecode BytecodeProofs Vm VmProofs Compile CompileSem CompileWfProofs CompileSymProofs CompileCtlProofs CompileCoverProofs.
 Require Import EvyV.Gen.Opcodes.
 Import ListNotations.
 Open Scope N_scope.
@@ -23,49 +23,48 @@ Print Assumptions C17_wf_check_sound.
 
 (* A well-formed program cannot crash the VM model through the stack, an
    operand or a jump: in every state reachable from NewVM by Run's loop the
-   stack pointer is >= LocalCount, the only possible crashes are a type-directed
+   stack pointer is >= LocalCount, the only possible crash is a type-directed
    one (unchecked type assertion — needs the typed simulation of C16, hence
-   _partial) and — in the tree at HEAD, Vm.repeat_guarded = false — the host
-   crash of OpArrayRepeat on a count no array can have (finding
-   vm-repeat-huge-count-host-panic, C17_vm_repeat_no_host_crash_refuted below);
-   when the loop ends the instruction pointer is exactly at the end of the
-   code and sp = LocalCount. *)
+   _partial), and when the loop ends the instruction pointer is exactly at the
+   end of the code and sp = LocalCount.  (OpArrayRepeat: since 208ef1c a count
+   no array can have is ErrBadRepetition, Vm.repeat_guarded = true; before it
+   was a host crash, C17_vm_repeat_host_crash_before_fix.) *)
 Theorem C17_wf_vm_safe_partial : forall (p : program), WF (info_of p) ->
   forall s, reachable p s ->
     plcount p <= sp_of s /\
     match vm_step p s with
     | Running _ | Failed _ => True
     | Halted s' => ip s' = N.of_nat (List.length (pcode p)) /\ sp_of s' = plcount p
-    | Crashed c => c = CType \/ (repeat_guarded = false /\ c = CHost)
+    | Crashed c => c = CType
     end.
 Proof. exact wf_vm_safe_partial. Qed.
 Print Assumptions C17_wf_vm_safe_partial.
 
-(* REFUTED at HEAD: `executing well-formed bytecode never crashes the host`.
-   `a := [1 2] * 1000000000000000000` compiles to bytecode the validator
-   accepts; OpArrayRepeat computes make([]value, 0, 2*10^18): the Go runtime
-   panics (makeslice: cap out of range; reproduced on the real VM by the C17
-   harness, stream repeat-count).  The evaluator returns ErrBadRepetition
-   ("result too large") for every count above math.MaxInt32 / len; with the
-   same guard in the VM (proposed_fixes/C17-vm-repeat-count.diff,
-   arr_repeat true) the model returns that error too. *)
+(* Before 208ef1c `executing well-formed bytecode never crashes the host` was
+   false: `a := [1 2] * 1000000000000000000` compiles to bytecode the validator
+   accepts; OpArrayRepeat computed make([]value, 0, 2*10^18) and the Go runtime
+   panicked (makeslice: cap out of range; reproduced on the real VM by the C17
+   harness, stream repeat-count).  The model of that tree (arr_repeat false)
+   crashes with CHost on the very operands the compiled program (which runs
+   to ErrBadRepetition now) feeds to OpArrayRepeat. *)
 Definition ex_repeat_huge : slist :=
   SCons (SDecl (s_ "a") (EBin BStar TArr TNum
            (EArr (ECons (ENum (float_of_Z 1)) (ECons (ENum (float_of_Z 2)) ENil)))
            (ENum (float_of_Z 1000000000000000000)))) SNil.
 
-Theorem C17_vm_repeat_no_host_crash_refuted :
+Theorem C17_vm_repeat_host_crash_before_fix :
   match compile ex_repeat_huge with
   | COk st =>
       let bc := bytecode_of st in
       wf_check {| bcode := out_code bc; nconsts := N.of_nat (List.length (out_consts bc));
                   gcount := out_gcount bc; lcount := out_lcount bc |} = true /\
-      vm_run 100 (program_of bc) (vm_init (program_of bc)) = FCrashed CHost
+      vm_run 100 (program_of bc) (vm_init (program_of bc)) = FFailed EBadRepetition
   | CErr _ => False
   end /\
+  arr_repeat false (float_of_Z 1000000000000000000) [VNum (float_of_Z 1); VNum (float_of_Z 2)] = PCrash CHost /\
   arr_repeat true (float_of_Z 1000000000000000000) [VNum (float_of_Z 1); VNum (float_of_Z 2)] = PErr EBadRepetition.
 Proof. vm_compute. repeat split; reflexivity. Qed.
-Print Assumptions C17_vm_repeat_no_host_crash_refuted.
+Print Assumptions C17_vm_repeat_host_crash_before_fix.
 
 (* Over EVERY history of Push/Pop/Define/Resolve: two symbols that are alive
    at the same time (stored in any table of the current chain, shadowed or not)
@@ -109,6 +108,50 @@ Theorem C17_compile_local_operands_partial : forall (p : slist) (st : cstate),
     arg0 i < st_local_count (csym st).
 Proof. exact compile_local_operands. Qed.
 Print Assumptions C17_compile_local_operands_partial.
+
+(* ---------- everything the compiler emits ---------- *)
+(* THE first half of C17, for EVERY program the compiler accepts — element
+   stores `a[i] = e` / `m[k] = e` included: the emitted bytecode satisfies WF
+   (every operand in range, every jump — back-patched ones included — on an
+   instruction boundary inside the code, the stack heights agree at every
+   join, never below LocalCount, every local operand below LocalCount, sp =
+   LocalCount at the end).  The two side conditions are guaranteed by the
+   parser, not by the compiler, and are stated because the model's AST type is
+   wider than what the parser builds: wplain_slist (CompileSem.v) — no map
+   literal whose len(Pairs) differs from len(Order) ("duplicated map key" is
+   a parse error; OpMap's operand is len(Pairs) while 2*len(Order) values are
+   pushed) and no block as a statement of its own (BlockStatement only occurs
+   as a body) — and nb_slist — no break outside a loop ("break is not in a
+   loop" is a parse error; such a break would leave an unpatched jump
+   placeholder; compile_no_pending_break: without one the compiler ends with
+   an empty break list). *)
+Theorem C17_compile_wf_all : forall (p : slist) (st : cstate),
+  compile p = COk st -> wplain_slist p = true -> nb_slist p = true ->
+  WF {| bcode := out_code (bytecode_of st); nconsts := N.of_nat (List.length (out_consts (bytecode_of st)));
+        gcount := out_gcount (bytecode_of st); lcount := out_lcount (bytecode_of st) |}.
+Proof. exact compile_wf_total. Qed.
+Print Assumptions C17_compile_wf_all.
+
+(* … and the second half on top of it: the VM model cannot be crashed through
+   the stack, an operand or a jump by anything the compiler emits (_partial as
+   C17_wf_vm_safe_partial: a type-directed crash is excluded only by the typed
+   simulation of C16). *)
+Theorem C17_compile_vm_safe_all_partial : forall (p : slist) (st : cstate),
+  compile p = COk st -> wplain_slist p = true -> nb_slist p = true ->
+  let prog := program_of (bytecode_of st) in
+  forall s, reachable prog s ->
+    plcount prog <= sp_of s /\
+    match vm_step prog s with
+    | Running _ | Failed _ => True
+    | Halted s' => ip s' = N.of_nat (List.length (pcode prog)) /\ sp_of s' = plcount prog
+    | Crashed c => c = CType
+    end.
+Proof.
+  intros p st HC HP HB prog. apply wf_vm_safe_partial.
+  unfold prog, info_of, program_of. cbn [pcode pconsts pgcount plcount]. rewrite map_length.
+  apply (compile_wf_total p st HC HP HB).
+Qed.
+Print Assumptions C17_compile_vm_safe_all_partial.
 
 (* Every LOCAL symbol any Define/Resolve of the history returned has an index
    below the root's nestedMaxIndex once all open scopes are popped, i.e. below
@@ -231,3 +274,33 @@ Example C17_ex_symtab :
   map (fun r => match r with RSym y => Some (sidx y) | _ => None end) rs
     = [None; Some 0; None; Some 1; None; Some 1; None] /\ st_local_count s = 4.
 Proof. vm_compute. split; reflexivity. Qed.
+
+(* a := [1 2 3]; m := {k:a}; i := 0
+   while i < 3: a[i] = a[i] * 2; m["k"][i] = i; if i == 1: break end; i = i + 1 end
+   -- element stores, a nested store, a break: accepted, wplain, WF, and the model runs to the end *)
+Definition ex_stores : slist :=
+  let num k := ENum (float_of_Z k) in
+  let v x := EVar (s_ x) in
+  SCons (SDecl (s_ "a") (EArr (ECons (num 1%Z) (ECons (num 2%Z) (ECons (num 3%Z) ENil)))))
+ (SCons (SDecl (s_ "m") (EMap (PCons (s_ "k") (v "a") PNil) 1%Z))
+ (SCons (SDecl (s_ "i") (num 0%Z))
+ (SCons (SWhile (EBin BLt TNum TNum (v "i") (num 3%Z))
+          (SCons (SAssign (EIndex (v "a") (v "i")) (EBin BStar TNum TNum (EIndex (v "a") (v "i")) (num 2%Z)))
+          (SCons (SAssign (EIndex (EIndex (v "m") (EStr (s_ "k"))) (v "i")) (v "i"))
+          (SCons (SIf (EBin BEq TNum TNum (v "i") (num 1%Z)) (SCons SBreak SNil) CNil NoElse)
+          (SCons (SAssign (v "i") (EBin BPlus TNum TNum (v "i") (num 1%Z))) SNil))))) SNil))).
+
+Example C17_ex_stores :
+  wplain_slist ex_stores = true /\ nb_slist ex_stores = true /\ plain_slist ex_stores = false /\
+  match compile ex_stores with
+  | COk st => cbreaks st = [] /\
+      (let bc := bytecode_of st in
+       wf_check {| bcode := out_code bc; nconsts := N.of_nat (List.length (out_consts bc));
+                   gcount := out_gcount bc; lcount := out_lcount bc |} = true) /\
+      match vm_run 2000 (program_of (bytecode_of st)) (vm_init (program_of (bytecode_of st))) with
+      | FHalted s => ostack s = [] /\ nth_error (globals s) 2 = Some (VNum (float_of_Z 1))
+      | _ => False
+      end
+  | CErr _ => False
+  end.
+Proof. vm_compute. repeat split; reflexivity. Qed.
